@@ -172,9 +172,33 @@ func VH_C03_TagOps() {
 	vhPutManifest(s, "r", "c", types.MediaTypeOCI1Manifest, img2)
 	model["c"] = d2
 	present := map[digest.Digest]bool{d1: true, d2: true}
+	// an index listing img1 (pushed by op 3): img1 then also lives in the child list
+	ixDoc := vhIndexDoc([]types.Descriptor{vhDesc(types.MediaTypeOCI1Manifest, img1)}, nil, "")
+	dx := digest.Canonical.FromBytes(ixDoc)
+	bodies[dx] = ixDoc
+	k1 := false
 	steps := vh.Param("K", 2)
 	for k := 0; k < steps; k++ {
-		switch vh.Choice("op", 3) {
+		switch vh.Choice("op", 3+vh.Param("INDEXOP", 1)) {
+		case 3: // push an index over img1 under the tag ix
+			rec := vhDo(s, "PUT", "/v2/r/manifests/ix", nil, vhHdr("Content-Type", types.MediaTypeOCI1ManifestList), ixDoc)
+			if present[d1] {
+				vh.Assert(rec.Status() == 201, "C03.put")
+				vh.Cover("C03.index-pushed")
+			}
+			// (after img1 was deleted by digest its bytes stay in the blob store until a
+			// collection: the index is then accepted as well; whether img1 is addressable
+			// by digest again differs between the running server and a reloaded one - the
+			// same inconsistency as known finding K1 - and is not asserted from here on)
+			if rec.Status() == 201 {
+				model["ix"] = dx
+				present[dx] = true
+				if !present[d1] {
+					k1 = true
+				}
+			} else {
+				vh.Assert(rec.Status() >= 400 && rec.Status() < 500, "C03.put-index-refusal-status")
+			}
 		case 0: // push/move a tag
 			t := vh.Str("tag", "a", "c", "d")
 			d := d1
@@ -201,7 +225,22 @@ func VH_C03_TagOps() {
 				d = d2
 			}
 			rec := vhDo(s, "DELETE", "/v2/r/manifests/"+d.String(), nil, nil, nil)
-			if present[d] {
+			if k1 && d == d1 {
+				// known finding K1 (C07/C10): img1 was deleted by digest while a present
+				// index lists it; a reload brings it back as a child - its presence is
+				// not asserted from here on, its tags still are
+				for t, td := range model {
+					if td == d {
+						delete(model, t)
+					}
+				}
+				if rec.Status() == 202 {
+					present[d] = false
+				}
+			} else if present[d] {
+				if d == d1 && present[dx] {
+					k1 = true
+				}
 				vh.Assert(rec.Status() == 202, "C03.deldigest-status")
 				for t, td := range model {
 					if td == d {
@@ -216,7 +255,7 @@ func VH_C03_TagOps() {
 		}
 		// the tag map is durable state: for the directory store the view below may also be
 		// taken by a new server opened on the same directory
-		if stKind == config.StoreDir && vh.Bool("restart") {
+		if stKind == config.StoreDir && (k == steps-1 || vh.Param("RESTARTLAST", 0) == 0) && vh.Bool("restart") {
 			_ = s.Close()
 			s = New(vhConf(stKind))
 			vh.Tag("restart", "true")
@@ -224,7 +263,7 @@ func VH_C03_TagOps() {
 		}
 		// the API view equals the model: every tag resolves to its last push, deleted
 		// tags are gone, manifests stay addressable by digest until deleted by digest
-		for _, t := range []string{"a", "b", "c", "d", "zz"} {
+		for _, t := range []string{"a", "b", "c", "d", "ix", "zz"} {
 			g := vhGetManifest(s, "r", t)
 			if d, ok := model[t]; ok {
 				vh.Assert(g.Status() == 200 && g.HeaderMap.Get("Docker-Content-Digest") == d.String() && vhBytesEq(g.Body, bodies[d]), "C03.resolve")
@@ -236,7 +275,7 @@ func VH_C03_TagOps() {
 			g := vhGetManifest(s, "r", d.String())
 			if present[d] {
 				vh.Assert(g.Status() == 200 && vhBytesEq(g.Body, bodies[d]), "C03.bydigest")
-			} else {
+			} else if !(d == d1 && k1) {
 				vh.Assert(g.Status() == 404, "C03.bydigest-gone")
 			}
 		}
